@@ -324,3 +324,21 @@ Proof.
   split; [vm_compute; reflexivity|]. split; [reflexivity|].
   vm_compute. discriminate.
 Qed.
+
+(* platform selection on an image manifest keeps the root or fails; on a list it is select_manifest *)
+Lemma select_target_image r ok p want x :
+  select_target r (PVImage ok p) want = Some x <-> x = r /\ ok = true /\ plat_match p want = true.
+Proof.
+  simpl. destruct ok; destruct (plat_match p want); simpl; split; intro H.
+  - injection H as <-. auto.
+  - destruct H as [-> _]. reflexivity.
+  - discriminate.
+  - destruct H as [_ [_ H]]. discriminate.
+  - discriminate.
+  - destruct H as [_ [H _]]. discriminate.
+  - discriminate.
+  - destruct H as [_ [H _]]. discriminate.
+Qed.
+
+Lemma select_target_other r want : select_target r PVOther want = None.
+Proof. reflexivity. Qed.
